@@ -563,12 +563,10 @@ func (bc *BaseComponent) AddDebugAttribute(tag *html.HTMLTag, componentType stri
 
 // CSS Class Helper Methods - Generic css-class attribute handling for all components
 
-// GetCSSClass returns the css-class attribute value
+// GetCSSClass returns the css-class value the element uses: its own attribute, else what its
+// mj-class definitions supply, else the mj-attributes default for its tag, else mj-all
 func (bc *BaseComponent) GetCSSClass() string {
-	if value, exists := bc.Attrs["css-class"]; exists {
-		return value
-	}
-	return ""
+	return bc.GetWrittenAttribute("css-class")
 }
 
 // BuildClassAttribute combines existing CSS classes with the css-class attribute
